@@ -75,6 +75,7 @@ where
                     amount,
                 );
                 txn.effective_date(entry.booking_date.as_naive_date())
+                    .code_option(fragment.code)
                     .dest_account_option(fragment.account);
                 if !fragment.cleared {
                     txn.clear_state(syntax::ClearState::Pending);
@@ -99,7 +100,7 @@ where
                     amount,
                 );
                 txn.effective_date(entry.booking_date.as_naive_date())
-                    .code_option(code)
+                    .code_option(fragment.code.or(code))
                     .dest_account_option(fragment.account);
                 if !fragment.cleared {
                     txn.clear_state(syntax::ClearState::Pending);
